@@ -63,12 +63,16 @@ def units(tier):
     us.append(('guderley', {'gud': True}))
     us.append(('sedov', {'sedov': True}))
     us.append(('sdrz', {'sdrz': True}))
+    us.append(('rmtv', {'rmtv': True}))
     us += [('radshock/' + c_, {'radshock': c_}) for c_ in ('ED_Solver', 'nED_Solver', 'Sn_Solver', 'ie_Solver')]
     us.append(('ehep', {'ehep': True}))
     return us
 
 
-def run_unit(name, key=None, case=None, tier='quick', riemann=False, pat=None, fam=None, ehep=False, gud=False, sedov=False, sdrz=False, radshock=None):
+def run_unit(name, key=None, case=None, tier='quick', riemann=False, pat=None, fam=None, ehep=False, gud=False, sedov=False, sdrz=False, radshock=None, rmtv=False):
+    if rmtv:
+        from props import rmtv_kit
+        return rmtv_kit.unit_eos()
     if radshock:
         from props import c12
         return c12.unit_eos(radshock)
